@@ -9,7 +9,8 @@ INFO = ("YLoader (TLA+): reference Compose (what a sentence denotes: order, key/
         "grammatical event sentence of <= 11 (quick) / 13 (thorough) events over 3 scalar values, 2 anchors, aliases (also to open nodes, also as keys), duplicate and complex keys; "
         "every sentence is replayed directly into the real YamlLoader::on_event for the four node types, and every pool text is loaded; (events, documents, failure flags) are "
         "judged by Trace_Loader (Compose) in TLC.",
-        "Scalar resolution is taken from the library's resolver (C08's subject). The resulting position of a duplicated key is not asserted. Nesting deeper than 60 is left to C11.",
+        "The composition is judged with the library's own resolution of each scalar; that resolution is judged separately, for every distinct (text, style, tag) met in the pool "
+        "and in a family of documents holding the core schema's boundary scalars in every style and under every tag class, by YCoreSchema (Trace_Schema). The resulting position of a duplicated key is not asserted. Nesting deeper than 60 is left to C11.",
         "TLA+ model checking of the loader model against a reference composition + TLC trace validation of real loads", "7/C07")
 
 
@@ -23,7 +24,8 @@ def run(ck):
         raise ToolError("MC_Loader: %s violated inside the model; see %s" % (m["violated"], m["out"]))
     pool = props.full_pool(ck, soups=30000 if ck.tier == "quick" else None)
     out = ck.wd("c07.ndjson")
-    s, crash = props.run_recorder(ck, ["c07", "--in", m["out"], "--pool", pool, "--out", out], out)
+    sc = ck.wd("c07_scalars.ndjson")
+    s, crash = props.run_recorder(ck, ["c07", "--in", m["out"], "--pool", pool, "--out", out, "--scalars", sc], out)
     if crash:
         raise ToolError("recorder died: %s" % crash)
     ck.evaluations += 4 * (s["sentences"] + s["texts"])
@@ -36,6 +38,20 @@ def run(ck):
             r = recs[rej[0] - 1]
             ident = r.get("t") if r["src"] == "text" else " ".join("%s%s" % (e["k"], ("&%d" % e["aid"]) if e["aid"] else "") for e in r["evs"])
             ck.violation("%s:%s:%s" % (r["src"], r["ty"], json.dumps(ident)), "%s (%s, node type %s): %s" % (rej[1], r["src"], r["ty"], str(ident)[:200]), r)
+    # "each scalar becomes the value chosen by its text, style and tag": every distinct (text, style, tag) met in an accepted
+    # text, as resolved by the library's entry points (loader included), judged by the core-schema reference (YCoreSchema)
+    js = props.judge(ck, "Trace_Schema", sc, name="c07_scalars", timeout=3600)
+    srecs = read_ndjson(sc)
+    ck.traces += js.judged
+    ck.evaluations += s.get("scalar_cells", 0)
+    ck.extra["scalar_cells_judged"] = s.get("scalar_cells", 0)
+    if js.judged != len(srecs):
+        raise ToolError("Trace_Schema judged %d of %d scalar records" % (js.judged, len(srecs)))
+    for rej in js.rejects[:300]:
+        r = srecs[rej[0] - 1]
+        c = r["cells"][rej[1] - 1]
+        ck.violation("scalar:%s:%s:%s" % (c["style"], c["tag"] or "none", r["s"]), "%s scalar %r%s resolves to %s: %s" % (
+            c["style"], r["s"], (" tagged " + c["tag"]) if c["tag"] else "", json.dumps(c["rs"])[:200], rej[2]), {"t": r["s"], "cell": c})
     for x in s["samples"]:
         ck.sample(x)
 
